@@ -104,6 +104,8 @@ def digest_of(value):
     if isinstance(value, Path):
         f = value / 'v.txt'
         return f.read_text() if f.exists() else None
+    if type(value).__name__ == 'Figure' and hasattr(value, '_suptitle'):
+        return value._suptitle.get_text() if value._suptitle is not None else None
     if callable(value):
         items = list(value())
         return items[0] if items else None
@@ -183,6 +185,14 @@ def encode(kind, d, task):
             if not link.exists() and not link.is_symlink():
                 link.symlink_to(os.path.relpath(target, data.dir))
         return data
+    if kind == 'figure':
+        # a matplotlib figure carrying the digest as its title (stored as .pickle, with .png / .svg renderings beside it)
+        import matplotlib
+        matplotlib.use('Agg')
+        from matplotlib.figure import Figure
+        fig = Figure(figsize=(1, 1))
+        fig.suptitle(d)
+        return fig
     if kind == 'memory':
         obj = RT.classes['MemValue']()
         obj.tcv_digest = d
